@@ -24,7 +24,9 @@ use std::sync::Arc;
 use std::task::{Context, Poll, RawWaker, RawWakerVTable, Waker};
 use std::time::Duration;
 
+mod adaptive;
 mod budget;
+mod coalesce;
 mod bulkhead;
 mod ratelimiter;
 mod roundrobin;
@@ -90,6 +92,8 @@ pub struct Shared {
     pub entered_total: AtomicUsize,
     pub max: usize,
     pub violated: AtomicBool,
+    pub key_violated: AtomicBool,
+    pub per_key: [AtomicUsize; 4],
     /// per request id: how often it reached the wrapped service
     pub entered: Vec<AtomicUsize>,
 }
@@ -102,6 +106,8 @@ impl Shared {
             entered_total: AtomicUsize::new(0),
             max,
             violated: AtomicBool::new(false),
+            key_violated: AtomicBool::new(false),
+            per_key: [AtomicUsize::new(0), AtomicUsize::new(0), AtomicUsize::new(0), AtomicUsize::new(0)],
             entered: (0..requests).map(|_| AtomicUsize::new(0)).collect(),
         })
     }
@@ -120,6 +126,8 @@ pub struct Req {
     pub fail: bool,
     /// processor yields inside the destructor of the inner future
     pub slow_drop: u32,
+    /// coalescing key (coalesce scenario), otherwise 0
+    pub key: usize,
 }
 
 /// A request is inside the wrapped service from `call()` until its future completes or, if it
@@ -131,6 +139,7 @@ pub struct Guard {
     slow_drop: u32,
     done: bool,
     id: usize,
+    key: usize,
 }
 impl Drop for Guard {
     fn drop(&mut self) {
@@ -141,6 +150,7 @@ impl Drop for Guard {
             std::thread::yield_now();
         }
         self.sh.in_flight.fetch_sub(1, SeqCst);
+        self.sh.per_key[self.key % 4].fetch_sub(1, SeqCst);
         note(3, self.id);
     }
 }
@@ -152,7 +162,7 @@ pub struct InnerFut {
     g: Guard,
 }
 impl Future for InnerFut {
-    type Output = Result<usize, &'static str>;
+    type Output = Result<usize, usize>;
     fn poll(mut self: Pin<&mut Self>, _cx: &mut Context<'_>) -> Poll<Self::Output> {
         if self.g.done {
             panic!("inner future polled after completion");
@@ -163,9 +173,10 @@ impl Future for InnerFut {
         }
         self.g.done = true;
         self.g.sh.in_flight.fetch_sub(1, SeqCst);
+        self.g.sh.per_key[self.g.key % 4].fetch_sub(1, SeqCst);
         note(2, self.id);
         if self.fail {
-            Poll::Ready(Err("inner"))
+            Poll::Ready(Err(self.id))
         } else {
             Poll::Ready(Ok(self.id))
         }
@@ -199,7 +210,7 @@ pub fn trace_digest_and_reset() -> (u64, usize) {
 
 impl tower_service::Service<Req> for Inner {
     type Response = usize;
-    type Error = &'static str;
+    type Error = usize;
     type Future = InnerFut;
     fn poll_ready(&mut self, _cx: &mut Context<'_>) -> Poll<Result<(), Self::Error>> {
         Poll::Ready(Ok(()))
@@ -212,10 +223,13 @@ impl tower_service::Service<Req> for Inner {
             self.sh.entered[r.id].fetch_add(1, SeqCst);
         }
         note(1, r.id);
+        if self.sh.per_key[r.key % 4].fetch_add(1, SeqCst) + 1 > 1 {
+            self.sh.key_violated.store(true, SeqCst);
+        }
         if n > self.sh.max {
             self.sh.violated.store(true, SeqCst);
         }
-        InnerFut { left: r.pends, fail: r.fail, id: r.id, g: Guard { sh: self.sh.clone(), slow_drop: r.slow_drop, done: false, id: r.id } }
+        InnerFut { left: r.pends, fail: r.fail, id: r.id, g: Guard { sh: self.sh.clone(), slow_drop: r.slow_drop, done: false, id: r.id, key: r.key } }
     }
 }
 
@@ -247,6 +261,8 @@ fn main() {
     let scenario: fn(u64, &tokio::runtime::Runtime) = match args[1].as_str() {
         "bulkhead" => bulkhead::run,
         "budget" => budget::run,
+        "coalesce" => coalesce::run,
+        "adaptive" => adaptive::run,
         "ratelimiter" => ratelimiter::run,
         "roundrobin" => roundrobin::run,
         other => {
